@@ -299,7 +299,11 @@ def correspondence(ctx, obs, quick):
             else:
                 exprs.append((cid, f"(Ok (@nil nat), leaf_lens (prod2d Qops {a}) {t} (root2d {r['nx']} {r['ny']}))"))
             meta[cid] = o
-    res = run_compute_cases(ctx, "C15", IMPORTS, "", exprs, shards=NCPU)
+    # canary: a deliberately wrong expectation (values rotated by one position, on a 5-point dyadic range split 2|3) must be rejected
+    canary = ("canary", f"check_tree1d {cq(0)} {cq(4)} 5 (Node 2 Leaf Leaf) [{cq(1)}; {cq(2)}; {cq(3)}; {cq(4)}; {cq(0)}] {cq(0)}")
+    res = run_compute_cases(ctx, "C15", IMPORTS, "", exprs + [canary], shards=NCPU)
+    if res.get("canary", "").replace(" ", "").replace("%nat", "") != "Ok[0;1;2;3;4]":
+        ctx.proof_failures.append(("Cases/C15", "canary", f"the model comparison accepted a deliberately wrong observation: {res.get('canary')}"))
     nok = 0
     for cid, o in meta.items():
         got = res.get(cid)
@@ -339,6 +343,35 @@ def replay_filter(ctx, want):
         ctx.proof_failures = []
 
 
+def selftest(ctx, obs):
+    """corrupted observations must be flagged by the oracle"""
+    import copy
+    roots = [o for o in obs if o["kind"] in ("root1d", "root2d")]
+    n_exp = n_got = 0
+    for kind, mut in (("tree1d", "swap"), ("tree1d", "lens"), ("tree1d", "reported"), ("tree2d", "swap"), ("tree2d", "drop")):
+        o = next((x for x in obs if x["kind"] == kind and x["tree"].startswith("N") and "vals" in x and len(x["lens"]) >= 2 and len(x["vals"]) >= (4 if kind == "tree1d" else 8)
+                  and x["vals"][0] != x["vals"][-1] and not x.get("panic")), None)
+        if o is None:
+            continue
+        c = copy.deepcopy(o)
+        if mut == "swap":
+            w = 1 if kind == "tree1d" else 2
+            c["vals"] = c["vals"][-w:] + c["vals"][w:-w] + c["vals"][:w]
+        elif mut == "lens":
+            c["lens"] = [c["lens"][0] + 1] + c["lens"][1:]
+        elif mut == "reported":
+            c["reported"] = [c["reported"][0] + 1] + c["reported"][1:]
+        else:
+            c["vals"] = c["vals"][:-2]
+        probe = Ctx("C15", ctx.tier, ctx.seed)
+        oracle_trees(probe, roots + [c])
+        n_exp += 1
+        n_got += 1 if probe.violations else 0
+        if not probe.violations:
+            ctx.note(f"oracle self-test: a corrupted {kind} observation ({mut}) was not flagged")
+    return n_exp, n_got
+
+
 def run(ctx):
     want = replay_setup(ctx)
     quick = ctx.tier == "quick"
@@ -353,6 +386,8 @@ def run(ctx):
     if not any(o["kind"] == "done" for o in obs):
         ctx.violation("S5", "harness did not finish the split-tree runs", {"kind": "crash"}, {"tail": obs[-1] if obs else None})
     oracle_trees(ctx, obs)
+    ne, ng = selftest(ctx, obs)
+    ctx.log(f"S5 oracle self-test: {ng}/{ne} corrupted observations flagged")
     pobs = run_harness(ctx, binp, ["c15", ctx.seed, 1 if quick else 4, "pools", tier], timeout=2400)
     if not any(o["kind"] in ("done", "timeout") for o in pobs):
         ctx.violation("S5", "harness did not finish the thread-pool runs", {"kind": "crash"}, {"tail": pobs[-1] if pobs else None})
